@@ -169,6 +169,21 @@ Section Top.
     - now rewrite init_plive.
   Qed.
 
+  (** the package's own [verify()] answers true in every reachable state *)
+  Theorem verify_true (i : impl) sizes ops :
+    well_scoped K V (mergeable i) (all_live sizes) ops = true ->
+    forall j h, nth_error (p_final K V cmp eqv (p_init K V i sizes) ops) j = Some (Some h) ->
+                h_verify K V cmp h = true.
+  Proof.
+    intros Hws j h Hj. destruct i; simpl in Hws.
+    - pose proof (binary_invariant sizes ops Hws j h Hj) as H. destruct h; simpl in H; try tauto.
+      now apply b_verify_ok.
+    - pose proof (binomial_invariant sizes ops Hws j h Hj) as H. destruct h; simpl in H; try tauto.
+      destruct H as [[Hh _] Hs]. now apply n_verify_ok.
+    - pose proof (fibonacci_invariant sizes ops Hws j h Hj) as H. destruct h; simpl in H; try tauto.
+      now apply (f_verify_ok cmp maxdeg_ok).
+  Qed.
+
   (** the root orders of a reachable binomial heap are the positions of the one-bits of [n] *)
   Theorem binomial_bits sizes ops :
     well_scoped K V true (all_live sizes) ops = true ->
